@@ -61,7 +61,7 @@ class Engine(ExprEval, NumpyModel, NumpyFuncs):
         self.spec_consts = dict(spec_consts or {})
         self.spec_funcs = dict(spec_funcs or {})
         self.spec_names = set(self.spec_funcs) | {"forall", "exists", "implies", "iff", "ite", "old", "shape", "rowsum",
-                                                  "is_none", "typeis", "lam", "isnan_", "fresh", "using", "have", "optval", "isint_", "gather_pos", "gather_src", "sort_inv", "sort_perm"}
+                                                  "is_none", "typeis", "lam", "isnan_", "fresh", "using", "have", "optval", "isint_", "to_int", "gather_pos", "gather_src", "sort_inv", "sort_perm"}
         self.externals = dict(externals or {})
         self.obligations: list[Obligation] = []
         self.assumptions: set[str] = set()
@@ -593,6 +593,9 @@ class Engine(ExprEval, NumpyModel, NumpyFuncs):
         if name == "optval":
             v = args[0]
             return v.value if isinstance(v, OptV) else (0 if v is NONE else v)
+        if name == "to_int":
+            v = args[0]
+            return v if is_intv(v) else z3.ToInt(to_z3(to_real(v)))
         if name == "isint_":
             v = args[0]
             return True if is_intv(v) else z3.IsInt(to_z3(to_real(v)))
@@ -1436,7 +1439,7 @@ class Engine(ExprEval, NumpyModel, NumpyFuncs):
         if b == "arr":
             dims = tuple(int(d) if d.strip().isdigit() else self.eval_dim(st, d, scope) for d in ts.dims)
             if ts.elem == "nreal":
-                a = sym_array(name, dims, "real", unique=True)
+                a = sym_array(name, dims, "int", unique=True)
                 nf = z3.Function(fresh_name(name + "_isnan"), *([z3.IntSort()] * len(dims)), z3.BoolSort())
                 a.nanmask = lambda *i: nf(*[to_z3(x) for x in i])
                 return a
@@ -1526,7 +1529,10 @@ class Engine(ExprEval, NumpyModel, NumpyFuncs):
         self.unify_params(st, c, bound, scope, node)
         if c.ghost_params:
             key = getattr(self, "_cur_stmt_key", None)
-            gargs = (self.cur.call_ghosts.get(key, {}) if self.cur is not None else {}).get(fi.node.name)
+            gargs = None
+            for ck, cv in (self.cur.call_ghosts.items() if self.cur is not None else ()):
+                if (ck == key or (ck.endswith("*") and (key or "").startswith(ck[:-1]))) and fi.node.name in cv:
+                    gargs = cv[fi.node.name]
             if gargs is None:
                 raise Unsupported(f"call of {fi.qualname} at `{key}` needs ghost arguments {list(c.ghost_params)} (call_ghosts)")
             for gname, gt in c.ghost_params.items():
